@@ -12,6 +12,11 @@ clauses are evaluated through the public API only:
   (iii) scores / components / transform / inverse_transform with normalized=True and normalized=False differ by exactly
         one positive constant per mode: the L2 norm of that mode's un-normalised public score series.
 
+  (sel) mode selections (on the algebra layer and the all-flags-on corner of every other sub-product): for a score array
+        s, inverse_transform of {subset list, reordered subset, single mode as list, single mode as scalar .sel / .isel}
+        equals inverse_transform of s with the other modes zeroed (linearity; normalized False and True for single-set
+        models), and transform of it returns the selection on its modes and zero elsewhere.
+
 Exceptions raised by a public call are turned into `raised` violations per call (so that the remaining clauses of the
 case are still evaluated) with the innermost xeofs frame as signature.
 """
@@ -43,7 +48,8 @@ RULE = (
     "degenerate spectra (rank_def; thorough: flat_pair, clustered, near_equal_var), scales 1e-8/1e8 (single-set), field sizes 6|4 and 4|6 (only the smaller field is "
     "restorable), thorough: n=12, n=6 with 6 features (p > n-1) over the whole alpha grid, provenance {refitted, deferred-then-computed, deserialized} x structure layer. "
     "Score arrays of clause (ii): sample coordinates {new longer disjoint, one length-one sample dimension} everywhere, {training, short unsorted} and one-sided cross-set calls "
-    "on the algebra layer (thorough: everywhere). A case is non-trivial when every clause applicable to it compared non-empty arrays and none fired"
+    "on the algebra layer (thorough: everywhere). Mode selections of a score array {subset list, reordered subset, [k], scalar .sel(mode=k), scalar .isel(mode=i)} x normalized "
+    "{False, True} (single-set; cross-set inverse_transform has no switch) on the algebra layer and on the all-flags-on corner of every other sub-product. A case is non-trivial when every clause applicable to it compared non-empty arrays and none fired"
 )
 ASSUMPTIONS = [
     "the numeric catalogue (fixed spectra/shapes/scales, orthogonal factors drawn from VERIF_SEED) stands for 'all inputs'",
@@ -227,19 +233,23 @@ SINGLE = [("EOF", False, None), ("ComplexEOF", True, None), ("HilbertEOF", False
 NSNAN6 = [(1, "none"), (2, "none"), (1, "feature"), (2, "feature"), (1, "sample"), (2, "sample")]
 
 
-def _single(out, model, cplx, padding, cont, ns, nan, flags, spec="geometric", scale=1.0, n_modes="all", prov="fresh", n=8, sv="new,one"):
+def _single(out, model, cplx, padding, cont, ns, nan, flags, spec="geometric", scale=1.0, n_modes="all", prov="fresh", n=8, sv="new,one", msel=None):
     c, s, cl, w = flags
+    if msel is None:  # mode selections: whole algebra layer, and the all-flags-on corner of every other sub-product
+        msel = bool((cont == "DA" and ns == 1 and nan == "none" and spec == "geometric" and scale == 1.0) or tuple(flags) == FLAGS4[1])
     d = dict(family="single", model=model, cplx=cplx, cont=cont, ns=ns, nan=nan, center=c, standardize=s, coslat=cl, weights=w,
-             spec=spec, scale=scale, n_modes=n_modes, prov=prov, n=n, sv=sv)
+             spec=spec, scale=scale, n_modes=n_modes, prov=prov, n=n, sv=sv, msel=msel)
     if model == "HilbertEOF":
         d["padding"] = padding
     out.append(d)
 
 
-def _cross(out, model, alpha, pca, cflags, cont, ns, nan, sizes=(4, 4), spec="geometric", n_modes="all", prov="fresh", n=10, mixed=None, sv="new,one"):
+def _cross(out, model, alpha, pca, cflags, cont, ns, nan, sizes=(4, 4), spec="geometric", n_modes="all", prov="fresh", n=10, mixed=None, sv="new,one", msel=None):
     s, cl, w = cflags
+    if msel is None:  # mode selections: the all-flags-on corner of every sub-product
+        msel = bool(tuple(cflags) == CFLAGS2[1])
     d = dict(family="cross", model=model, cplx=model.startswith("Complex"), alpha=[float(a) for a in alpha], pca=bool(pca), cont=cont, ns=ns, nan=nan,
-             standardize=[s, s], coslat=[cl, cl], weights=[w, w], sizes=list(sizes), spec=spec, n_modes=n_modes, prov=prov, n=n, scale=1.0, sv=sv)
+             standardize=[s, s], coslat=[cl, cl], weights=[w, w], sizes=list(sizes), spec=spec, n_modes=n_modes, prov=prov, n=n, scale=1.0, sv=sv, msel=msel)
     if mixed is not None:  # per-field flags
         d["standardize"], d["coslat"], d["weights"] = [list(x) for x in mixed]
     out.append(d)
@@ -390,12 +400,17 @@ def cases(tier, seed):
                 if dfr and model == "MCA":
                     _cross(out, model, a, False, CFLAGS2[0], "DS", 2, "none", prov=prov, sv="new,one")
     # de-duplicate, simplest first
-    seen, uniq = set(), []
+    seen, uniq = {}, []
     for c in out:
-        key = repr(sorted((k, v) for k, v in c.items() if k != "sv"))
+        key = repr(sorted((k, v) for k, v in c.items() if k not in ("sv", "msel")))
         if key not in seen:
-            seen.add(key)
+            seen[key] = c
             uniq.append(c)
+        else:  # the same configuration reached through two sub-products: keep the richer interrogation
+            first = seen[key]
+            first["msel"] = bool(first["msel"] or c["msel"])
+            if len(c["sv"]) > len(first["sv"]):
+                first["sv"] = c["sv"]
     order = {"DA": 0, "DS": 1, "list": 2, "list_ds": 3}
     uniq.sort(key=lambda c: (c["prov"] != "fresh", c["family"] != "single", c["nan"] != "none", c["ns"], order[c["cont"]], c["spec"] != "geometric", c["scale"] != 1.0))
     return uniq
@@ -677,7 +692,7 @@ def run_single(case, seed):
     if m is None:
         return dict(violations=cx.V, outcome="violation", nontrivial=False)
     modes = np.arange(1, k + 1)
-    ncmp = {"i": 0, "ii": 0, "iii": 0}
+    ncmp = {"i": 0, "ii": 0, "iii": 0, "sel": 0}
 
     # ---- (i) reconstruction from the model's own scores
     sc = cx.call("scores", m.scores)
@@ -745,9 +760,17 @@ def run_single(case, seed):
             rb = cx.call("inverse_transform", m.inverse_transform, s * cda.sel(mode=keep), normalized=False)
             if ra is not None and rb is not None:
                 ncmp["iii"] += _check_same_data(cx, f, ra, rb, s, "normalized_inverse_transform", "inverse_transform(s, normalized=True) vs inverse_transform(s * ||scores||)", feats)
+            if case.get("msel") and len(keep) >= 2:
+                # un-normalised scores at the model's score magnitude, normalised ones at magnitude one
+                for flag, mg, salt in ((False, mag, 3), (True, 1.0, 4)):
+                    sm = score_array(f, keep, "new", case["cplx"], seed, salt, mg)
+                    ncmp["sel"] += check_mode_selections(
+                        cx, [("S", f)], lambda arrs, fl: [m.inverse_transform(arrs[0], normalized=fl)],
+                        None if hilbert else (lambda rec: [m.transform(rec[0])]), [sm], keep, lambda nm: feats, [flag])
+                cx.done.append("sel")
             cx.done.append("iii")
 
-    need = (["i"] if full else []) + ([] if hilbert else ["ii"]) + ["iii"]
+    need = (["i"] if full else []) + ([] if hilbert else ["ii"]) + ["iii"] + (["sel"] if case.get("msel") and k >= 2 else [])
     nontriv = not cx.V and all(x in cx.done and ncmp[x] > 0 for x in need)
     return dict(violations=cx.V, outcome="violation" if cx.V else "ok", nontrivial=nontriv,
                 info=dict(k=int(k), clauses="".join(cx.done), compared=ncmp, restored=["S"] if "i" in cx.done else [], prov=case["prov"], maxerr=cx.maxerr))
@@ -783,7 +806,7 @@ def _check_components_switch(cx, f, cp0, cp1, c, modes, keep, feats, tag=""):
     return n
 
 
-def _check_same_data(cx, f, ra, rb, s, check, what, feats):
+def _check_same_data(cx, f, ra, rb, s, check, what, feats, tol=TOL):
     n = 0
     for pc in f.pieces:
         try:
@@ -799,8 +822,61 @@ def _check_same_data(cx, f, ra, rb, s, check, what, feats):
         e = relerr(a, b, mask & np.isfinite(a)) if np.array_equal(np.isfinite(a), mask) else np.inf
         n += int(mask.sum())
         cx.err(check, e)
-        if not e <= 10 * TOL:
+        if not e <= 10 * tol:
             cx.bad(check, "%s, piece %s: rel. deviation %.3e" % (what, pc["path"], e), **feats)
+    return n
+
+
+def mode_selections(s, keep):
+    """selections of a score array along `mode`, as (name, selected array, list of selected modes)."""
+    k = [int(x) for x in keep]
+    if len(k) < 2:
+        return []
+    a, b, j = k[0], k[-1], k[len(k) // 2]
+    sub = [a, b] if len(k) >= 3 else [b]
+    reo = sub[::-1] if len(sub) > 1 else [b, a]
+    return [
+        ("subset", s.sel(mode=sub), sub),
+        ("reordered", s.sel(mode=reo), reo),
+        ("single_list", s.sel(mode=[j]), [j]),
+        ("scalar_sel", s.sel(mode=j), [j]),
+        ("scalar_isel", s.isel(mode=k.index(j)), [j]),
+    ]
+
+
+def check_mode_selections(cx, fields, inv, tr, arrays, keep, feats_of, flags, tol=TOL):
+    """clause (ii)/(iii) on mode selections: by linearity, reconstructing a selection of modes must equal reconstructing
+    the full array with every other mode set to zero (a relation between two runs of the real code), whether the modes
+    are picked as a list, in another order, or as a scalar coordinate; and transforming it back must return the
+    selection on its modes and zero on the others. `arrays` holds one score array per field; `inv(list_of_arrays, flag)`
+    and `tr(reconstruction)` wrap the model's calls and return one object per field (tr may be None)."""
+    n = 0
+    names = [x[0] for x in mode_selections(arrays[0], keep)]
+    for flag in flags:
+        refs = {}
+        for si, name in enumerate(names):
+            sels = [mode_selections(a, keep)[si] for a in arrays]
+            modes = sels[0][2]
+            key = tuple(sorted(modes))
+            zeros = [a.where(a.mode.isin(modes), 0.0) for a in arrays]
+            if key not in refs:
+                refs[key] = cx.call("inverse_transform", inv, zeros, flag)
+            ra = cx.call("inverse_transform", inv, [x[1] for x in sels], flag)
+            rb = refs[key]
+            if ra is None or rb is None:
+                continue
+            for i, (nm, f) in enumerate(fields):
+                fe = dict(feats_of(nm), selection=name, **({} if flag is None else {"normalized": bool(flag)}))
+                n += _check_same_data(cx, f, ra[i], rb[i], arrays[i], "mode_selection", "inverse_transform(s[%s])%s vs inverse_transform(s with the other modes zeroed)%s"
+                                      % (name, "" if flag is None else " normalized=%s" % flag, (", field %s" % nm) if nm != "S" else ""), fe, tol=tol)
+            if tr is not None and not flag and name in ("reordered", "scalar_sel"):
+                t = cx.call("transform", tr, ra)
+                if t is None:
+                    continue
+                for i, (nm, f) in enumerate(fields):
+                    fe = dict(feats_of(nm), selection=name)
+                    n += check_like(cx, "roundtrip_selection", t[i], zeros[i], f, "transform(inverse_transform(s[%s]))%s" % (name, (", field %s" % nm) if nm != "S" else ""),
+                                    fe, restrict_modes=np.asarray(keep), tol=tol)
     return n
 
 
@@ -827,7 +903,7 @@ def run_cross(case, seed):
     if m is None:
         return dict(violations=cx.V, outcome="violation", nontrivial=False)
     modes = np.arange(1, k + 1)
-    ncmp = {"i": 0, "ii": 0, "iii": 0}
+    ncmp = {"i": 0, "ii": 0, "iii": 0, "sel": 0}
     restored = []
     fields = (("X", fx), ("Y", fy))
     # accuracy-aware tolerance: a field whose covariance is numerically singular in the space that gets whitened
@@ -896,6 +972,14 @@ def run_cross(case, seed):
                 if t1 is not None:
                     ncmp["ii"] += check_like(cx, "roundtrip", t1, s, f, "transform(%s=inverse_transform(%s=s))" % (nm, nm), dict(feats0, field=nm), restrict_modes=rmodes, tol=tol)
 
+    # ---- mode selections (cross-set inverse_transform has no normalized switch)
+    if case.get("msel") and len(rmodes) >= 2:
+        sm = [score_array(f, rmodes, "new", case["cplx"], seed, 21 + i, mags[i]) for i, (_, f) in enumerate(fields)]
+        ncmp["sel"] += check_mode_selections(
+            cx, fields, lambda arrs, fl: m.inverse_transform(arrs[0], arrs[1]), lambda rec: m.transform(rec[0], rec[1]), sm, rmodes,
+            lambda nm: dict(feats0, field=nm), [None], tol=tol)
+        cx.done.append("sel")
+
     # ---- (iii)
     sc0 = cx.call("scores", m.scores, normalized=False)
     sc1 = cx.call("scores", m.scores, normalized=True)
@@ -928,7 +1012,7 @@ def run_cross(case, seed):
                 ncmp["iii"] += check_like(cx, "normalized_transform", t1[i] * cda, t0[i] if r_new is not None else _valid_part(f, t0[i]), f, "transform(normalized=True)[%s] * ||scores||" % nm, fe, restrict_modes=keep)
         cx.done.append("iii")
 
-    need = (["i"] if full and restored else []) + ["ii", "iii"]
+    need = (["i"] if full and restored else []) + ["ii", "iii"] + (["sel"] if case.get("msel") and len(rmodes) >= 2 else [])
     nontriv = not cx.V and all(x in cx.done and ncmp[x] > 0 for x in need)
     return dict(violations=cx.V, outcome="violation" if cx.V else "ok", nontrivial=nontriv,
                 info=dict(k=int(k), clauses="".join(cx.done), compared=ncmp, restored=restored, alpha=alpha, rmodes=int(len(rmodes)), prov=case["prov"], maxerr=cx.maxerr, singular_whitening=bool(singular)))
@@ -964,8 +1048,8 @@ def finalize(cases_, results, tier, seed):
         largest_relative_deviation_in_passing_cases={k: float("%.3g" % v) for k, v in sorted(worst.items())},
         largest_relative_deviation_in_passing_cases_with_singular_whitening={k: float("%.3g" % v) for k, v in sorted(worst_sing.items())},
         cases_with_singular_whitening=n_sing,
-        clause_cases_compared={"i_reconstruction": ncase["i"], "ii_roundtrip": ncase["ii"], "iii_normalized_switches": ncase["iii"]},
-        clause_numbers_compared={"i_reconstruction": nnum["i"], "ii_roundtrip": nnum["ii"], "iii_normalized_switches": nnum["iii"]},
+        clause_cases_compared={"i_reconstruction": ncase["i"], "ii_roundtrip": ncase["ii"], "iii_normalized_switches": ncase["iii"], "mode_selections": ncase["sel"]},
+        clause_numbers_compared={"i_reconstruction": nnum["i"], "ii_roundtrip": nnum["ii"], "iii_normalized_switches": nnum["iii"], "mode_selections": nnum["sel"]},
         fields_checked_for_reconstruction=dict(restored),
         reconstruction_cases_by_provenance=dict(provs),
     )
@@ -986,7 +1070,7 @@ def vacuity(outcomes, results, tier):
             continue
         judged += 1
         fam = "cross" if "alpha" in info else "single"
-        for x in ("i", "ii", "iii"):
+        for x in ("i", "ii", "iii", "sel"):
             if info["compared"].get(x, 0) > 0:
                 seen[fam].add(x)
         restored |= set(info.get("restored", []))
@@ -995,8 +1079,8 @@ def vacuity(outcomes, results, tier):
         if "alpha" in info and info["compared"].get("i", 0) > 0:
             alphas.add(tuple(info["alpha"]))
     for fam, s in seen.items():
-        if s != {"i", "ii", "iii"}:
-            return "%s-set models: clauses %s never compared anything" % (fam, sorted({"i", "ii", "iii"} - s))
+        if s != {"i", "ii", "iii", "sel"}:
+            return "%s-set models: clauses %s never compared anything" % (fam, sorted({"i", "ii", "iii", "sel"} - s))
     if restored != {"S", "X", "Y"}:
         return "reconstruction was compared only for %s" % sorted(restored)
     if len(alphas) < 16:
